@@ -1,7 +1,9 @@
 package mon
 
 import (
+	"fmt"
 	"math/rand/v2"
+	"strings"
 
 	"github.com/nlnwa/whatwg-url/url"
 
@@ -31,6 +33,10 @@ func genOp(r *rand.Rand, k histKinds) core.Op {
 		case 0, 1, 2, 3, 4, 5:
 			if k.setters {
 				s := gen.Pick(r, gen.Setters)
+				if r.IntN(8) == 0 {
+					// the component's CURRENT value, in another spelling (resolved when the history runs)
+					return sOp(s + "~" + gen.Pick(r, respellKinds))
+				}
 				return sOp(s, gen.SetterValue(r, s))
 			}
 		case 6:
@@ -133,9 +139,56 @@ func applyOp(u *url.Url, op core.Op) *url.Url {
 		old.Append("z", "1")
 		_ = o.Href(false)
 	default:
+		if _, _, ok := splitRespell(op.Name); ok {
+			op = respellOp(op, obs.TakeTen(u))
+		}
 		obs.ApplySetter(u, op.Name, op.Arg(0))
 	}
 	return u
+}
+
+// Re-setting a component to its own current value, spelled differently: "hostname~upper" is
+// SetHostname(upper-cased current Hostname()).  A setter that short-cuts "nothing changes"
+// by comparing texts is only wrong for such values (the parse of the same text may differ
+// after the scheme changed, or differ by case for opaque hosts).
+var respellKinds = []string{"same", "same", "upper", "lower", "pct", "strip"}
+
+func splitRespell(name string) (setter, kind string, ok bool) {
+	i := strings.IndexByte(name, '~')
+	if i < 0 {
+		return name, "", false
+	}
+	return name[:i], name[i+1:], true
+}
+
+var tenIndexOf = map[string]int{"protocol": 1, "username": 2, "password": 3, "host": 4, "hostname": 5, "port": 6, "pathname": 7, "search": 8, "hash": 9}
+
+func respell(v, kind string) string {
+	switch kind {
+	case "upper":
+		return strings.ToUpper(v)
+	case "lower":
+		return strings.ToLower(v)
+	case "pct":
+		for i := 0; i < len(v); i++ {
+			if c := v[i]; 'a' <= c && c <= 'z' || 'A' <= c && c <= 'Z' {
+				return v[:i] + fmt.Sprintf("%%%02X", c) + v[i+1:]
+			}
+		}
+	case "strip":
+		return strings.TrimRight(strings.TrimLeft(v, "?#"), ":")
+	}
+	return v
+}
+
+// respellOp turns a symbolic "setter~kind" operation into a concrete one, given the current
+// values (href + the nine getters, in refmodel.TenNames order); other operations are returned as they are.
+func respellOp(op core.Op, ten [10]string) core.Op {
+	setter, kind, ok := splitRespell(op.Name)
+	if !ok {
+		return op
+	}
+	return sOp(setter, respell(ten[tenIndexOf[setter]], kind))
 }
 
 func opBytes(op core.Op) int {
